@@ -38,6 +38,9 @@ pub enum Frag {
     TwoWrites,
     /// first byte in this slot, rest in the next slot
     AcrossSlots,
+    /// a 57-byte SUBSCRIBE in pieces of 12 bytes, one per half-second slot (two seconds per frame, always above a
+    /// rate of 4 bytes per second, so that every frame lives through at least one read-timer period)
+    Trickle,
 }
 
 #[derive(Clone, Copy, Debug, PartialEq, Eq, Hash)]
@@ -279,8 +282,13 @@ impl Scenario for Tm {
                 self.substeps = SUB - 1;
                 ntex_util::time::vclock::advance(SUBSTEP);
                 if !self.carry.is_empty() {
-                    let c = std::mem::take(&mut self.carry);
-                    self.deliver(&c, true);
+                    let mut c = std::mem::take(&mut self.carry);
+                    if matches!(self.cfg.steady, Some((_, Frag::Trickle))) && c.len() > 12 {
+                        self.carry = c.split_off(12);
+                        self.deliver(&c, false);
+                    } else {
+                        self.deliver(&c, true);
+                    }
                 }
                 if let (true, Some((period, frag))) = (self.traffic_on && !self.ended(), self.cfg.steady) {
                     if self.t % period == 0 && self.frame.is_none() {
@@ -290,6 +298,13 @@ impl Scenario for Tm {
                             Frag::TwoWrites => {
                                 self.deliver(&p[..1], false);
                                 self.deliver(&p[1..], true);
+                            }
+                            Frag::Trickle => {
+                                self.frame_seq += 1;
+                                let filter = format!("s/{}", "y".repeat(48));
+                                let f = rf::encode(self.cfg.ep.ver, &Pkt::Subscribe { pid: 200 + self.frame_seq as u16, props: vec![], filters: vec![(filter, 0)] });
+                                self.deliver(&f[..12], false);
+                                self.carry = f[12..].to_vec();
                             }
                             Frag::AcrossSlots => {
                                 self.deliver(&p[..1], false);
@@ -655,6 +670,17 @@ pub fn configs(tier: Tier) -> Vec<TmCfg> {
             ep.frame_read_rate = Some((1, 0, 4));
             v.push(TmCfg { ep, kind: Kind::ReadRate, steady: None, horizon: 18, alphabet: vec![Part(12), More(6), More(1), Rest], max_events: if thorough { 6 } else { 5 }, combined: false, prefill_busy: 0 });
         }
+        // ---- frame read rate with an overall limit of three periods, steady traffic of slow-but-legal frames (2 s each,
+        // 12 bytes every half second): every frame has its own overall budget - the fourth frame is as welcome as the
+        // first (seeded change C20_r7 never refilled the budget, so the periods of all frames added up)
+        {
+            let mut ep = EpCfg::new(ver, Role::Server);
+            ep.client_keepalive = 0;
+            ep.handler_auto = true;
+            ep.proto_auto = true;
+            ep.frame_read_rate = Some((1, 3, 4));
+            v.push(TmCfg { ep, kind: Kind::ReadRate, steady: Some((6, Frag::Trickle)), horizon: 30, alphabet: vec![Pkt], max_events: 1, combined: false, prefill_busy: 0 });
+        }
         // ---- connect timeout 2 s
         {
             let mut ep = EpCfg::new(ver, Role::Server);
@@ -695,7 +721,7 @@ pub fn run(tier: Tier) -> i32 {
         ck.explore::<Tm>("timers", i, c, &e);
     }
     ck.rule = format!(
-        "virtual clock, half-second grid, horizon = timeout + 5 s: v3/v5 server with keep-alive 1,2,3 s (client value), server override smaller / larger / with client value 0, and 0 = library default; background traffic absent or one complete packet per (period - 0.5 s) delivered whole, in two writes, or split across two slots; on top every placement of up to {} events (one more for the fragment families) out of {{traffic stops, extra packet, partial frame + rest, a handler becomes busy / completes (v3 max_receive 1: reading paused)}}; frame read rate (1 s, 3 s overall, > 4 bytes per period) with every placement of up to 5 fragment deliveries of 1 / 3 / 6 / rest bytes of a PUBLISH, and the same rate without an overall limit on a 47-byte SUBSCRIBE (not announced before it is complete) delivered in pieces of 12 / 6 / 1 / rest bytes; connect timeout 2 s with CONNECT in up to three fragments (single-version servers, and the combined server with a 2 s protocol-version timeout in front of it); client keep-alive 0..3 s, idle or with a busy handler or with a streamed publish open across a ping or with the send window exhausted (max_send 1, unacknowledged publish, a second sender parked). Oracle: timeout only after a gap >= the period (never for live peers, also after a reading pause), with DISCONNECT 0x8D on v5; an idle connection is ended within timeout + 1.5 s; read timeout never earlier than configured nor for a frame above the rate, always for a stalled one; CONNECT in time accepted, late one dropped, no handler before acceptance; client writes PINGREQ at least once per keep-alive period",
+        "virtual clock, half-second grid, horizon = timeout + 5 s: v3/v5 server with keep-alive 1,2,3 s (client value), server override smaller / larger / with client value 0, and 0 = library default; background traffic absent or one complete packet per (period - 0.5 s) delivered whole, in two writes, or split across two slots; on top every placement of up to {} events (one more for the fragment families) out of {{traffic stops, extra packet, partial frame + rest, a handler becomes busy / completes (v3 max_receive 1: reading paused)}}; frame read rate (1 s, 3 s overall, > 4 bytes per period) with every placement of up to 5 fragment deliveries of 1 / 3 / 6 / rest bytes of a PUBLISH, and the same rate without an overall limit on a 47-byte SUBSCRIBE (not announced before it is complete) delivered in pieces of 12 / 6 / 1 / rest bytes, and with the three-period limit under steady traffic of such SUBSCRIBE frames trickling in over two seconds each (every frame has its own overall budget); connect timeout 2 s with CONNECT in up to three fragments (single-version servers, and the combined server with a 2 s protocol-version timeout in front of it); client keep-alive 0..3 s, idle or with a busy handler or with a streamed publish open across a ping or with the send window exhausted (max_send 1, unacknowledged publish, a second sender parked). Oracle: timeout only after a gap >= the period (never for live peers, also after a reading pause), with DISCONNECT 0x8D on v5; an idle connection is ended within timeout + 1.5 s; read timeout never earlier than configured nor for a frame above the rate, always for a stalled one; CONNECT in time accepted, late one dropped, no handler before acceptance; client writes PINGREQ at least once per keep-alive period",
         ecfg.max_dev
     );
     ck.assumptions = vec![
